@@ -57,6 +57,8 @@ var cloneScripts = []cloneScript{
 			"cfg":  &tengo.ImmutableMap{Value: map[string]tengo.Object{"limits": &tengo.Array{Value: []tengo.Object{&tengo.Int{Value: 10}}}}},
 			"rows": &tengo.ImmutableArray{Value: []tengo.Object{&tengo.Int{Value: 0}, &tengo.Array{Value: []tengo.Object{&tengo.Int{Value: 20}}}}}},
 		sets: []int{1, 2, 3}},
+	// format() works on a printer taken from a process-wide pool: the only scratch state shared by ALL executions
+	{name: "format-builtin", src: `out := format("%d-%s", a, "x")`, inputs: map[string]interface{}{"a": 0}, sets: []int{1, 2, 3}},
 	{name: "runtime-error-position", src: `out := 0
 if a > 0 {
 	out = a + "x"
